@@ -127,7 +127,9 @@ def gen_ring(rng, resolved=True, kinds=None):
     if resolved:
         # put the delay on links leaving time components, split over one to three adapters
         cands = [l for l in links if comps[l["src"]]["kind"] == "time"]
-        mode = rng.choice(["one", "split", "spread", "dpush"])
+        mode = rng.choice(["one", "split", "spread", "dpush", "dpull"])
+        if mode == "dpull" and not all(c["kind"] == "time" and len(c["steps"]) == 1 for c in comps):
+            mode = "one"   # (DelayToPull counts requests: a fixed step of the consumer makes its delay a fixed time)
         def effective_pos(l):
             # the consumer's request passes the adapters from the consumer side up to the first push-based
             # adapter it meets; only positions behind the last push-based adapter (source -> consumer order)
@@ -135,7 +137,13 @@ def gen_ring(rng, resolved=True, kinds=None):
             last_cache = max([i for i, a in enumerate(l["ads"]) if a[0] in CACHE], default=-1)
             return rng.randint(last_cache + 1, len(l["ads"]))
 
-        if mode == "dpush":
+        if mode == "dpull":
+            # the link's consumer asks every `step`: the n-th previous request lies n * step back
+            l = rng.choice(cands)
+            step = comps[l["dst"]]["steps"][0]
+            n = -(-total // step)
+            l["ads"].insert(effective_pos(l), ["dpull", n + rng.choice([0, 0, 1]), rng.choice([0, 0, 1])])
+        elif mode == "dpush":
             l = rng.choice(cands)
             pos = effective_pos(l)
             l["ads"].insert(pos, ["dpush"])
@@ -161,6 +169,14 @@ def gen_ring(rng, resolved=True, kinds=None):
         comps.append({"kind": "time", "start": 0, "steps": [rng.choice([1, 2])]})
         l = {"src": len(comps) - 1, "out": 0, "dst": rng.choice(tcs), "ads": [rng.choice([["lin"], ["prev"], ["scale"], ["next"], ["lin"]])]}
         links.insert(0 if rng.random() < 0.6 else len(links), l)
+    # a tail consumer hanging on the same adapter objects as a ring link (one DelayFixed / Scale instance with two targets)
+    if rng.random() < 0.2:
+        cands = [li for li, l in enumerate(links) if comps[l["src"]]["kind"] == "time" and comps[l["dst"]]["kind"] == "time"
+                 and l["ads"] and all(a[0] in ("scale", "dfix") for a in l["ads"]) and "via" not in l]
+        if cands:
+            li = rng.choice(cands)
+            comps.append({"kind": "time", "start": 0, "steps": [rng.choice([1, 2, 3])]})
+            links.append({"src": links[li]["src"], "out": 0, "dst": len(comps) - 1, "ads": [], "via": li})
     # start offsets (a component behind a delay adapter that starts later than its feeder: the delay adapter's
     # clamp is the *feeder's* start)
     if rng.random() < 0.3:
